@@ -80,6 +80,8 @@ def run(ctx):
     c03_border_offsets.recursion_args(ctx, ctx.crate("rel"))
     from rules.c03_vertices import cardinal_set
     cardinal_set(ctx, ctx.crate("rel"))
+    from rules.c03_vertices import cardinal_set_iterator
+    cardinal_set_iterator(ctx, ctx.crate("rel"))
     from rules.c03_vertices import grid_ranges
     grid_ranges(ctx, ctx.crate("rel"))
     from rules.c03_vertices import path_points
